@@ -13,6 +13,10 @@ BOUNDARY = [0, 1, 2, 3, 7, 15, 16, 17, 255, 256, 65535, 65536, 65537, 2147483647
 NAMES = ['x', 'y', 'z', 'w', 'k', 'm', 'a', 'b', 'c', 'd']
 STRINGS = ['a', 'abc', 'hello', '0123456', 'xy', 'The quick', '', 'a\nb', "q'\"\\t\t", 'abcd', 'abcdefgh', 'abcdefghijk', 'abcdefghijkl',
            'the quick brown fox jumps over the lazy dog 0123456789 THE END', '~!@#$%^&*()_+{}[]<>?/']
+# bytes >= 0x80 (sources are written as latin-1; 0xFF is the lexer's end-of-file sentinel and is never generated) and lengths around the
+# signed-byte boundary and at the one-byte maximum of the packed length
+_ALPHA = 'abcdefghijklmnopqrstuvwxyzABCDEFGHIJKLMNOPQRSTUVWXYZ0123456789'
+STRINGS += ['\xe9ab', 'ab\x80', '\xfe\xfd\xfc\xfb\x7f', 'na\xefve caf\xe9'] + [(_ALPHA * 5)[:n] for n in (127, 128, 129, 131, 200, 254, 255)]
 CHARS = 'aZ09 !#&()*+-/<=>?@[]^_{}~'
 STREAMS_OUT = [0, 0, 0, 255, 7, 256, 512, 0x700, 0x7FF, 2048, 0x10200, -1, -256]
 STREAMS_IN = [0, 0, 0, 255, 3, 0x100, 0x300, 0x6AB, 0x800 + 0x300, -1]
@@ -240,6 +244,8 @@ class Gen:
         info = env.arrays[a]
         n = info['len']
         x = r.random()
+        if n > 16 and x < 0.3:
+            return lit(0)                # the word of a long string that holds its length byte
         if n >= 2 and x >= 0.75 and d > 0:
             return self.bool_expr(env, min(d, 2), min(mode, PURE))       # 0 or 1
         cands = [c for c, b in sorted(env.loopvars.items()) if b == a or (isinstance(b, int) and b <= n)]
@@ -575,7 +581,10 @@ class Gen:
             plist.extend(self.mutual_template())
         if cfg.mode == 'deep':
             plist.append(self.deep_template())
+        self.strprobe = self.chance(0.2)
         main = self.gen_main(plist)
+        if self.strprobe:
+            plist.append(self.strw_template())
         procs = [p.to_ast() for p in plist]
         r.shuffle(procs)
         procs.insert(r.randint(0, len(procs)), main.to_ast())
@@ -631,6 +640,12 @@ class Gen:
                 p.locals.append(('val', n, lit(self.small())))
             else:
                 p.locals.append(('var', n))
+        if self.chance(0.06):
+            # a large frame: unused locals before and after the used ones, so that frame offsets need a prefix (>= 16, sometimes >= 256)
+            k = r.choice([13, 16, 20, 40, 260])
+            cut = r.randint(0, k)
+            dummies = [('var', 'u%d' % j) for j in range(k)]
+            p.locals = dummies[:cut] + p.locals + dummies[cut:]
         env = self.make_env(p, earlier)
         if kind == 'func' and self.chance(0.55):
             env.pure_only = True
@@ -687,6 +702,12 @@ class Gen:
         else:
             e = ('bin', '+', ('var', 'n'), ('paren', inner))
         p.body = ('if', ('bin', '<=', ('var', 'n'), lit(0)), ('ret', ('var', 'a')), ('ret', e))
+        return p
+
+    def strw_template(self):
+        p = Proc('func', 'strw', [('array', 's'), ('val', 'i')])
+        p.array_info['s'] = dict(writable=False, lenformal=None, len=1)
+        p.body = ('ret', ('idx', 's', ('var', 'i')))
         return p
 
     def mutual_template(self):
@@ -756,6 +777,20 @@ class Gen:
                     st = ('skip',)
                 bulk.append(st)
             extra.append(('seq', bulk))
+        if getattr(self, 'strprobe', False):
+            # whole words of a packed string literal, observed in full (sign, equality with the expected word, low byte)
+            sl = r.choice(STRINGS if self.chance(0.3) else STRINGS[-11:])
+            bs = bytes([len(sl) & 0xFF]) + bytes(ord(c) for c in sl)
+            bs += b'\0' * (-len(bs) % 4)
+            words = [int.from_bytes(bs[i:i + 4], 'little', signed=True) for i in range(0, len(bs), 4)]
+            for i in sorted(set([0, len(words) - 1, r.randrange(len(words))])):
+                w = ('call', 'strw', [('str', sl), lit(i)])
+                put = lambda ch: ('syscall', self.callee('put'), [('chr', ch), lit(0)])
+                k = words[i] + r.choice([0, 0, 1]) if words[i] < 2**31 - 1 else words[i]
+                extra.append(('if', ('bin', '=', w, lit(k)), put('='), put('#')))
+                if words[i] != -2**31:
+                    extra.append(('if', ('bin', '<', w, lit(0)), put('-'), put('+')))
+                extra.append(('syscall', self.callee('put'), [w, lit(0)]))
         if self.cfg.mode == 'deep':
             depth = r.choice([50, 400, 2000, 8000, 12000])
             v = env.local_assign[0] if env.local_assign else None
